@@ -1,10 +1,12 @@
 package checks
 
 import (
+	"fmt"
 	"sort"
 
 	"verif/harness/internal/observe"
 	"verif/harness/internal/refmodel"
+	"verif/harness/internal/rng"
 	"verif/harness/internal/run"
 	"verif/harness/internal/world"
 )
@@ -14,7 +16,7 @@ func init() {
 		ID:    "C02",
 		Level: "exploration",
 		Rule: "cases: two streams - (a) precedence scenarios built around one workload pair (1-3 ANPs whose subject and peers select the pair, all action mixes, overlapping port shapes, x {no NP, NP governing, NP not governing} x {no BANP, BANP Allow/Deny}) and (b) random ANP/BANP/NP worlds; " +
-			"each world is analysed in three document orders of the admin policies (ascending priority, descending, shuffled + random file layout); the first report is compared with the reference model on all pairs x 3x65535 points and all address atoms, the other two must equal the first; " +
+			"each world is analysed in three document orders of the admin policies (ascending priority, descending, shuffled + random file layout); the first report is compared with the reference model on all pairs x 3x65535 points and all address atoms, the other two must equal the first; CheckIfAllowed (engine built from the parsed objects, ascending and shuffled order) is compared with the model for every workload pair at the boundary ports of all rules x 3 protocols; " +
 			"non-trivial = for some workload pair at least two of the layers ANP / NetworkPolicy / BANP decided some point (model trace); effective = an admin policy decided some point of some pair",
 		Assumptions: []string{
 			"reference model implements the scan order of the property statement (ascending priority, rules in order, first match decides; Pass/no match falls to NetworkPolicy if it governs, else first matching BANP rule, else allow)",
@@ -26,7 +28,7 @@ func init() {
 		MinNonTrivial:     200,
 		MinEffectiveShare: 0.3,
 		RequiredEvents: map[string]int64{"pairs_compared": 10000, "worlds_two_anps_on_one_pair": 50, "inputs_anps_out_of_priority_order": 100,
-			"layer_anp": 100, "layer_np": 100, "layer_banp": 50, "feature_anpPass": 100, "feature_anpDeny": 100, "feature_anpAllow": 100},
+			"eval_queries": 100000, "layer_anp": 100, "layer_np": 100, "layer_banp": 50, "feature_anpPass": 100, "feature_anpDeny": 100, "feature_anpAllow": 100},
 	})
 }
 
@@ -166,11 +168,63 @@ func runC02(c *run.Ctx) {
 			if c.Idx%97 == 0 || len(r.Violations) > 0 {
 				r.SetSample(sampleOf(w, res, 12))
 			}
+			// the eval route of the property (observe_at: PolicyEngine.CheckIfAllowed): answers vs the MODEL at rule boundaries
+			evalAgainstModel(c, w, dir, "c02.eval")
 		} else if ok, d := relationsEqual(first, res); !ok {
 			r.Violate("c02.order", "c02.order:docorder:differs", "same relation for every document order of the policies", d,
 				"order variant "+[]string{"asc", "desc", "shuffled"}[mode])
 		}
 	}
+	if len(r.Violations) == 0 { // and once more on the shuffled document order
+		evalAgainstModel(c, w, c.Dir("shuffled"), "c02.eval")
+	}
 	r.Effective = anyANP
 	r.NonTrivial = twoLayers
+}
+
+// evalAgainstModel builds an engine from the parsed objects of a directory and compares CheckIfAllowed with the reference model
+// for every ordered pair of workloads (first pod of each) at the boundary ports of all rules.
+func evalAgainstModel(c *run.Ctx, w *world.World, dir, monitor string) {
+	r := c.Res
+	objs, pp := observe.ParseDir(dir)
+	if pp != "" {
+		r.Violate("c02.total", "c02.total:any:panic", "objects", "panic: "+pp, "parse")
+		return
+	}
+	eng, cr := observe.NewEngineWithObjects(objs)
+	if cr.Panic != "" || cr.HasErr {
+		r.Violate(monitor, monitor+":engine:error", "an engine", cr.Panic+cr.Err, "")
+		return
+	}
+	g := c.R("evalports")
+	ports := boundaryPorts(g, w)
+	if len(ports) > 14 {
+		rng.Shuffle(g, ports)
+		ports = ports[:14]
+	}
+	m := &refmodel.Model{W: w}
+	nv := 0
+	for i := range w.Workloads {
+		for j := range w.Workloads {
+			if i == j {
+				continue
+			}
+			var fl refmodel.Flags
+			mc := m.Allowed(refmodel.WorkloadPeer(w, &w.Workloads[i]), refmodel.WorkloadPeer(w, &w.Workloads[j]), &fl)
+			s, d := podNamesOf(&w.Workloads[i])[0], podNamesOf(&w.Workloads[j])[0]
+			for _, pr := range []string{"TCP", "UDP", "SCTP"} {
+				for _, p := range ports {
+					res := eng.Check(s, d, pr, fmt.Sprint(p))
+					r.Ev("eval_queries", 1)
+					if res.Panic != "" || res.HasErr || res.Allowed != mc.Has(pr, p) {
+						nv++
+						if nv <= 2 {
+							r.Violate(monitor, monitor+":pair:disagrees-with-model", fmt.Sprintf("%v (model)", mc.Has(pr, p)), fmt.Sprintf("%v %s%s", res.Allowed, res.Err, firstLines(res.Panic, 3)),
+								fmt.Sprintf("%s => %s %s/%d", s, d, pr, p))
+						}
+					}
+				}
+			}
+		}
+	}
 }
